@@ -89,7 +89,9 @@ OpStep(ev) ==
     /\ \/ ModelAct(ev)
        \/ (~ENABLED ModelAct(ev)) /\ UNCHANGED vars
     /\ mon' = MonNext(mon, ev)
-    /\ viol' = viol \cup {[case |-> cid, line |-> l, prop |-> p, e |-> ev.e] : p \in Failed(mon, mon')}
+    \* (bounded: a broken implementation fails in thousands of executions; the first ones identify it)
+    /\ viol' = IF Cardinality(viol) >= 200 THEN viol
+               ELSE viol \cup {[case |-> cid, line |-> l, prop |-> p, e |-> ev.e] : p \in Failed(mon, mon')}
     /\ LET d == Proj' # ev.o IN
         /\ dflag' = (dflag \/ d)
         /\ ndiv' = IF d /\ ~dflag THEN ndiv + 1 ELSE ndiv
